@@ -22,12 +22,14 @@ func harnessC08Hooks() {
 	wantT := reflect.TypeOf(evA{})
 	hookArgsOK := true
 	var opts []Option
-	if hookB {
-		opts = append(opts, WithBeforePublish(func(t reflect.Type, ev any) {
-			e, ok := ev.(evA)
-			hookArgsOK = hookArgsOK && t == wantT && ok && e.N == 42
-			rec(1)
-		}))
+	plainViaSetters := vBool() // the two plain hooks installed with Set...Hook after construction
+	fnB := func(t reflect.Type, ev any) {
+		e, ok := ev.(evA)
+		hookArgsOK = hookArgsOK && t == wantT && ok && e.N == 42
+		rec(1)
+	}
+	if hookB && !plainViaSetters {
+		opts = append(opts, WithBeforePublish(fnB))
 	}
 	if hookBC {
 		opts = append(opts, WithBeforePublishContext(func(ctx context.Context, t reflect.Type, ev any) {
@@ -36,12 +38,13 @@ func harnessC08Hooks() {
 			rec(2)
 		}))
 	}
-	if hookA {
-		opts = append(opts, WithAfterPublish(func(t reflect.Type, ev any) {
-			e, ok := ev.(evA)
-			hookArgsOK = hookArgsOK && t == wantT && ok && e.N == 42
-			rec(3)
-		}))
+	fnA := func(t reflect.Type, ev any) {
+		e, ok := ev.(evA)
+		hookArgsOK = hookArgsOK && t == wantT && ok && e.N == 42
+		rec(3)
+	}
+	if hookA && !plainViaSetters {
+		opts = append(opts, WithAfterPublish(fnA))
 	}
 	if hookAC {
 		opts = append(opts, WithAfterPublishContext(func(ctx context.Context, t reflect.Type, ev any) {
@@ -67,6 +70,14 @@ func harnessC08Hooks() {
 		}))
 	}
 	bus := New(opts...)
+	if plainViaSetters {
+		if hookB {
+			bus.SetBeforePublishHook(fnB)
+		}
+		if hookA {
+			bus.SetAfterPublishHook(fnA)
+		}
+	}
 
 	key := c08Key(vStr("ctx-key"))
 	val := vInt(1, 1000)
